@@ -47,6 +47,7 @@ def main():
             tech = []
             if cfg.get('units'): tech.append("Verus contracts on extracted bodies (units: %s)" % ', '.join(cfg['units']))
             if cfg.get('kani_quick') or cfg.get('kani_thorough'): tech.append("Kani harnesses on the real crate")
+            if cfg.get('native'): tech.append("native replay of the same clauses on the real crate as counterexample search / bounded stand-in (never counted as proved)")
             m["checks"].append({
              "property_id": p, "quick_cmd": "/verif/bin/check %s --tier quick" % p, "thorough_cmd": "/verif/bin/check %s --tier thorough" % p,
              "evidence_file": "/verif/evidence/%s.json" % p, "engine": "check",
